@@ -48,7 +48,7 @@ func check(c Case) evid.Outcome {
 		}
 		// the body of a template whose analysis must fail never runs, whoever is executed
 		for _, mk := range res.Marks {
-			if _, bad := h.Bad[mk]; bad {
+			if cat, bad := h.Bad[mk]; bad && cat != "helper-nontext-end" {
 				return evid.Viol("step %d %+v ran the body of %q (built to fail analysis: %s) - mark fired; result out=%q err=%q\nhistory: %+v", i, op, mk, h.Bad[mk], res.Out, res.Err, h.Ops)
 			}
 		}
@@ -108,7 +108,7 @@ func check(c Case) evid.Outcome {
 }
 
 func gen(t *rapid.T) Case {
-	return Case{*hist.Gen(t, hist.Options{MaxOps: 14, BadMembers: true, RuntimeBad: true, ReadOnlyOps: true, NoRedefine: true, ParseAfter: true, Clones: rapid.IntRange(0, 2).Draw(t, "clones") == 0})}
+	return Case{*hist.Gen(t, hist.Options{MaxOps: 14, BadMembers: true, RuntimeBad: true, ReadOnlyOps: true, NoRedefine: true, ParseAfter: true, Unbalanced: rapid.IntRange(0, 2).Draw(t, "unbalanced") == 0, Clones: rapid.IntRange(0, 2).Draw(t, "clones") == 0})}
 }
 
 // TestPropCategories: every failure category, every body of the pool, alone in a set, through all four entry points,
